@@ -49,6 +49,7 @@ def gen_cases(tier, seed):
         for k in ks:
             if k > 0:
                 cases.append(common.mk(gen.content_for_bits(mode, k), tag='near-capacity', version=v, error=lv, boost_error=False))
+    cases += common.eci_boundary_cases(rng, tier)
     # multi segment / eci / random
     cases += common.random_cases(rng, 800 if tier == 'quick' else 60000, heavy=True)
     for _ in range(100 if tier == 'quick' else 1500):
